@@ -66,6 +66,26 @@ theorem sampleConMuPhi_generated (mu phi qaz theta : α) (N : M3 α) :
 theorem sampleConMuEta_generated (mu eta qaz theta : α) (N : M3 α) :
     Gen.calc_sample_con_mu_eta mu eta qaz theta N = Solver.sampleConMuEta mu eta qaz theta N := rfl
 
+/-! the two detector branches with a sign filter over a product of candidate lists (`calc_detector.py`) -/
+
+theorem detFromDelta_generated (delta theta : α) : Gen.calc_remaining_detector_angles_delta delta theta = Solver.detFromDelta delta theta := rfl
+
+theorem detFromNu_generated (nu theta : α) : Gen.calc_remaining_detector_angles_nu nu theta = Solver.detFromNu nu theta := rfl
+
+/-- `__calc_sample_con_mu`: the translator's `tryAssert … fun v => …` against the hand model's `catchAssert do …` (not the same term: by cases on
+the guarded `acos` and on the degenerate-chi test) -/
+theorem sampleConMu_generated (mu : α) (Nl N : M3 α) : Gen.calc_sample_con_mu mu Nl N = Solver.sampleConMu mu Nl N := by
+  unfold Gen.calc_sample_con_mu Solver.sampleConMu Solver.tryAssert Solver.catchAssert
+  dsimp only
+  generalize Solver.boundAcos (M3.mul (M3.mul (M3.inv (Gen.rot_MU mu)) Nl) (M3.transpose N)).a22 = r
+  cases r with
+  | error e => cases e <;> rfl
+  | ok v =>
+    dsimp only [bind, Except.bind]
+    by_cases hs : isSmall (sin v) = true
+    · simp only [hs, if_true]; rfl
+    · simp only [hs]; rfl
+
 /-! the numeric primitives everything else is built from (`util.py`): the tolerance constant, `bound`, `sign` -/
 
 theorem small_generated : (Gen.small_const : α) = Scalar.SMALL := rfl
